@@ -263,6 +263,9 @@ package compactindexsized
 //@   fnpure compare
 //@   requires compare != nil && len(a) <= 2305843009213693952
 //@   modifies a
+//@   # the layout step runs on every path that has something to lay out (two or more elements: the eytzinger layout of a
+//@   # sorted pair is [hi, lo], not the pair itself); what the layout IS comes from eytzinger's own contract
+//@   ensures len(a) >= 2 ==> called(eytzinger) == 1
 //@   use szRoot(len(a)) && unfold(lo(len(a), 1))
 
 // ---- builder: collision detection (C04) ----
